@@ -28,8 +28,29 @@ VAL = {'utf_8::utf8_valid_up_to': 'utf8', 'ascii::ascii_valid_up_to': 'ascii', '
 
 
 def feasible(p):
-    return not any((e[1] == ('c', 1, 'bool') and e[2] is False) or (e[1] == ('c', 0, 'bool') and e[2] is True) for e in p.conds()) and \
-        not (p.end[0] == 'diverge' and any((c[1] or '').endswith('assert_failed') for c in p.calls()))
+    if any((e[1] == ('c', 1, 'bool') and e[2] is False) or (e[1] == ('c', 0, 'bool') and e[2] is True) for e in p.conds()) or \
+            (p.end[0] == 'diverge' and any((c[1] or '').endswith('assert_failed') for c in p.calls())):
+        return False
+    # identity comparisons of one encoding reference with the Encoding statics are consistent along a path: the same comparison
+    # cannot come out differently twice (a helper that re-asks what its caller has already decided), and at most one can be true
+    seen = {}
+    for e in p.conds():
+        ce = e[1]
+        if ce[0] == 'call' and (ce[1] or '').endswith(('::eq', '::ne')) and len(ce[2]) == 2 and isinstance(e[2], bool):
+            st = r_strsafe.static_of(ce[2][1])
+            if st is None:
+                continue
+            subj = strip_ref(ce[2][0])
+            while subj[0] in ('deref', 'ref'):
+                subj = strip_ref(subj[1])
+            is_eq = (ce[1].endswith('::eq')) == e[2]
+            prev = seen.setdefault(subj, {})
+            if st in prev and prev[st] != is_eq:
+                return False
+            prev[st] = is_eq
+            if is_eq and any(v_ and k_ != st for k_, v_ in prev.items()):
+                return False
+    return True
 
 
 def static_of(e):
